@@ -11,6 +11,8 @@ CONSTANTS
   OtherForAll = FALSE
   EmptyMeansAll = FALSE
   StatusSucceeds = FALSE
+  AliasCallerSet = FALSE
+  MemoDecision = FALSE
   StarWithCreds = FALSE
 INVARIANT OnlyAllowedOrigins
 INVARIANT NoOriginUntouched
@@ -22,4 +24,5 @@ INVARIANT AllowRemovedOnPreflight
 INVARIANT DeniedPreflightWithdrawsGrants
 INVARIANT NoApprovalAfterRaise
 INVARIANT AllowOtherwiseKept
+INVARIANT GrantFunctionOfConfigAndRequest
 INVARIANT Emit
